@@ -85,6 +85,7 @@ type Enc struct {
 	topParams  []ceParam
 	topFrame   *Frame
 	nq         int
+	NoInv      bool // fallback encoding: every loop invariant, decreases clause and loop-head lemma of the top function is dropped
 }
 
 func NewEnc(p *Program, fn *ssa.Function, fc *FuncContract) *Enc {
@@ -815,7 +816,7 @@ func (f *Frame) enterLoop(li *loopInfo, b *ssa.BasicBlock) {
 		f.assume(t, "loop invariant")
 	}
 	// lemma instances at the loop head (each lemma is an obligation of its own)
-	if f.C != nil {
+	if f.C != nil && !(f.E.NoInv && f.isTop) {
 		for _, cl := range f.C.LoopApply[li.ordinal] {
 			f.assume(f.lemmaInstance(cl, f.envFor(env2, f.st, cl)), "lemma instance "+cl.Text)
 		}
@@ -916,10 +917,13 @@ func (f *Frame) loopInvariants(li *loopInfo) []*Clause {
 	if f.C == nil {
 		f.E.fail("loop in %s needs invariants but the function has no contract", f.Fn)
 	}
+	if f.E.NoInv && f.isTop {
+		return nil
+	}
 	return f.C.LoopInv[li.ordinal]
 }
 func (f *Frame) loopDecreases(li *loopInfo) []*Clause {
-	if f.C == nil {
+	if f.C == nil || f.E.NoInv && f.isTop {
 		return nil
 	}
 	return f.C.LoopDec[li.ordinal]
